@@ -178,6 +178,22 @@ def singletons(S):
     return out
 
 
+_DOMSCH = []
+
+
+def dom_schema():
+    """list schema + a mark whose attributes all have defaults (so the mark type has one shared
+    instance) with a plain tag rule - for hostile HTML parsed while other documents are live."""
+    if not _DOMSCH:
+        from prosemirror.model import Schema
+        from prosemirror.test_builder import test_schema as S0
+
+        marks = dict(S0.spec["marks"])
+        marks["hl"] = {"attrs": {"color": {"default": "y"}}, "parseDOM": [{"tag": "mark"}], "toDOM": lambda m, inline: ["mark", 0]}
+        _DOMSCH.append(Schema({"nodes": S0.spec["nodes"], "marks": marks}))
+    return _DOMSCH[0]
+
+
 def case(ctx, rnd, i):
     from prosemirror.model import Fragment, Mark, Node, Slice
     from prosemirror.transform import Mapping, Step, StepMap, Transform
@@ -315,7 +331,7 @@ def case(ctx, rnd, i):
                         s1 = Step.from_json(S, json.loads(json.dumps(j)))
                         _poison(j)
                         live.add(s1, name)
-                elif r < 0.96:
+                elif r < 0.93:
                     name = "Mapping"
                     m2 = mp.copy()
                     m2.append_map(StepMap([0, 0, 1]))
@@ -344,6 +360,17 @@ def case(ctx, rnd, i):
                         nd = from_html(S, html)
                         live.add(nd, "from_html")
                     except Exception:
+                        outcome = "from_html-raised"
+                elif rnd.random() < 0.6:
+                    name = "from_html-hostile"
+                    from prosemirror.model.from_dom import from_html
+                    from . import c19
+
+                    html = c19.gen_html(rnd, 0, set(), False, c19.INLINE + ["mark", "mark", "mark"])
+                    try:
+                        j = c19.watch().run(5000 * (len(html) + 10), from_html, dom_schema(), html or "<p>x</p>")
+                        live.add(Node.from_json(dom_schema(), j), name)
+                    except BaseException:
                         outcome = "from_html-raised"
                 else:
                     name = "can_replace"
